@@ -220,6 +220,9 @@ func setup() (*world, error) {
 	mk("noranges", &app.FS{AcceptByteRange: false, PathRewrite: strip}, false)
 	mk("compress", &app.FS{AcceptByteRange: true, Compress: true, PathRewrite: strip}, true)
 	mk("index", &app.FS{AcceptByteRange: true, IndexNames: []string{"index.html"}, GenerateIndexPages: true, PathRewrite: strip}, true)
+	// several index names of which the first does not exist, compression on: the lookup
+	// of the later names / the generated listing runs on the compressed-file path too
+	mk("index-compress", &app.FS{AcceptByteRange: true, Compress: true, IndexNames: []string{"missing.html", "index.html"}, GenerateIndexPages: true, PathRewrite: strip}, true)
 	return wd, nil
 }
 
@@ -246,6 +249,27 @@ func (q reqSpec) wire() string {
 func judge(w *mon.W, en *engine, q reqSpec, m *wire.Message, wd *world) string {
 	w.Count("responses_checked", 1)
 	w.Count(fmt.Sprintf("status_%d", m.Status), 1)
+	if ce, _ := m.Get("Content-Encoding"); ce == "gzip" && q.gzip && (q.kind == "index" || q.kind == "listing") && q.method == "GET" {
+		zr, err := gzip.NewReader(bytes.NewReader(m.Body))
+		if err != nil {
+			return "gzip body does not open: " + err.Error()
+		}
+		b, err := io.ReadAll(zr)
+		if err != nil {
+			return "gzip body does not decode: " + err.Error()
+		}
+		if cl, ok := m.Get("Content-Length"); ok && cl != strconv.Itoa(len(m.Body)) {
+			return fmt.Sprintf("Content-Length %s, compressed body %d bytes", cl, len(m.Body))
+		}
+		var fields []wire.Field
+		for _, f := range m.Fields {
+			if wire.Canon(f.K) != "Content-Length" {
+				fields = append(fields, f)
+			}
+		}
+		m = &wire.Message{Status: m.Status, Fields: fields, Body: b}
+		w.Count("gzip_index_responses", 1)
+	}
 	switch q.kind {
 	case "missing":
 		if m.Status != 404 {
@@ -506,8 +530,15 @@ func work(w *mon.W) {
 			qs = []reqSpec{{method: r.Str("GET", "HEAD"), file: r.Str("nope.bin", "d1/nope", "f1.bin/x", "F1.BIN"), kind: "missing", L: -1}}
 		case 1:
 			en = wd.engines[3]
+			gz := false
+			if r.Bool() {
+				en, gz = wd.engines[4], r.Bool()
+			}
 			qs = []reqSpec{{method: "GET", file: "d1/", kind: "index", L: -1}, {method: "HEAD", file: "d1/", kind: "index", L: -1}, {method: "GET", file: "d2/", kind: "listing", L: -1}, {method: "GET", file: "f5.bin", L: 5, kind: "file", rng: "bytes=1-3"},
 				{method: r.Str("GET", "HEAD"), file: "d3/", kind: "listing", L: -1}, {method: "GET", file: "d3/", kind: "listing", L: -1}}
+			for i := range qs {
+				qs[i].gzip = gz
+			}
 		default:
 			en = wd.engines[2]
 			q := reqSpec{method: "GET", file: "t.txt", L: 6000, kind: "file", gzip: true}
